@@ -94,7 +94,14 @@ func runBubble(t *testing.T, spec *core.Spec, tp *tape.Tape, tier string, trace 
 			ctx.Seed, ctx.Run = curSeed, run
 			defer func() {
 				if r := recover(); r != nil {
-					ctx.Failf(spec.ID+"/panic", "panic in run: %v\n%s", r, firstLines(string(debug.Stack()), 30))
+					// a panic raised by the harness itself is a harness error, never a violation: decided by
+					// the first frame below the panic that is neither runtime nor the recover plumbing
+					st := string(debug.Stack())
+					class := spec.ID + "/panic"
+					if panicInHarness(st) {
+						class = "harness/panic"
+					}
+					ctx.Failf(class, "panic in run: %v\n%s", r, firstLines(st, 30))
 				}
 				ctx.RunCleanup()
 				// Fake time stops when the root goroutine exits, so bounded waits that are still pending
@@ -241,6 +248,12 @@ func TestWorker(t *testing.T) {
 	fpAll := map[uint64]struct{}{}
 	fpNT := map[uint64]struct{}{}
 	states := map[string]struct{}{}
+	knownClasses, knownSeen := map[string]bool{}, map[string]bool{}
+	for _, k := range strings.Split(os.Getenv("VERIF_KNOWN_CLASSES"), ",") {
+		if k = strings.TrimSpace(k); k != "" {
+			knownClasses[k] = true
+		}
+	}
 	t0 := time.Now()
 	// progress marker: if code under test panics on one of its own goroutines the process dies with no
 	// summary; the driver reads the index of the run that was executing from here and replays that run
@@ -297,6 +310,15 @@ func TestWorker(t *testing.T) {
 		if res.Violation != nil {
 			full := tp.Recorded()
 			class := res.Violation.Class
+			if knownClasses[class] {
+				// a listed known finding: the first occurrence is recorded (with its replay), the others are
+				// only counted; none of them stops the search for other violations
+				sum.Probes["known-finding:"+class]++
+				if knownSeen[class] {
+					continue
+				}
+				knownSeen[class] = true
+			}
 			minTape, execs := full, 0
 			if os.Getenv("VERIF_NO_MINIMIZE") == "" {
 				deadline := time.Now().Add(time.Duration(envInt("VERIF_MIN_S", 60)) * time.Second)
@@ -328,7 +350,13 @@ func TestWorker(t *testing.T) {
 				}
 			}
 			sum.Violations = append(sum.Violations, v)
-			if len(sum.Violations) >= envInt("VERIF_MAX_VIOLATIONS", 3) {
+			unknown := 0
+			for _, x := range sum.Violations {
+				if !knownClasses[x.Class] {
+					unknown++
+				}
+			}
+			if unknown >= envInt("VERIF_MAX_VIOLATIONS", 3) {
 				break
 			}
 		}
@@ -342,4 +370,25 @@ func TestWorker(t *testing.T) {
 		sum.States = append(sum.States, k)
 	}
 	write()
+}
+
+// panicInHarness reports whether the function that panicked (the first frame after runtime's panic frames in
+// a stack taken inside the deferred recover) belongs to the harness (/verif/sim) rather than to /repo.
+func panicInHarness(stack string) bool {
+	lines := strings.Split(stack, "\n")
+	seenPanic := false
+	for i := 0; i+1 < len(lines); i++ {
+		fn, loc := lines[i], strings.TrimSpace(lines[i+1])
+		if strings.HasPrefix(fn, "panic(") || strings.HasPrefix(fn, "runtime.") {
+			if strings.HasPrefix(fn, "panic(") || strings.Contains(fn, "panic") || strings.Contains(fn, "sigpanic") {
+				seenPanic = true
+			}
+			continue
+		}
+		if !seenPanic || !strings.HasPrefix(loc, "/") {
+			continue
+		}
+		return strings.HasPrefix(loc, "/verif/")
+	}
+	return false
 }
